@@ -1,17 +1,17 @@
 #!/bin/bash
 # usage: baseline_commit.sh <commit>...   -- runs the unedited baseline suite on each commit of /repo in its own scratch worktree (in parallel),
-# prints the cmp.py line per commit, removes the worktrees.  Results: /tmp/blc/<commit>.cmp
+# prints the cmp.py line per commit, removes the worktrees and its own data directories.  Results: /tmp/blc/<commit>.cmp
 mkdir -p /tmp/blc
 for c in "$@"; do
   (
     wt=/tmp/blc/wt_$c
     git -C /repo worktree add -q --detach $wt $c || exit 1
     cd $wt
-    BCL_DATA_DIR=$(mktemp -d /tmp/blc/bcl.XXXX) /venv/bin/python -m pytest -ra -q -p no:cacheprovider --timeout=900 --continue-on-collection-errors --junitxml=/tmp/blc/$c.xml > /tmp/blc/$c.log 2>&1
+    dd=$(mktemp -d /tmp/blc/bcl_$c.XXXX)
+    BCL_DATA_DIR=$dd /venv/bin/python -m pytest -ra -q -p no:cacheprovider --timeout=900 --continue-on-collection-errors --junitxml=/tmp/blc/$c.xml > /tmp/blc/$c.log 2>&1
     /venv/bin/python /verif/notes/experiments/cmp.py /tmp/blc/$c.xml > /tmp/blc/$c.cmp 2>&1
-    cd /; git -C /repo worktree remove --force $wt
+    cd /; git -C /repo worktree remove --force $wt; rm -rf $dd
     echo "$c $(cat /tmp/blc/$c.cmp)"
   ) &
 done
 wait
-rm -rf /tmp/blc/bcl.*
